@@ -261,8 +261,8 @@ package protocol
 // error type the separating space): a line cut right before its CRLF used to come out as "OK\r" (repaired defect)
 //@ func (*TextParser).ParseResponse
 //@   requires self != nil
-//@   loop#5 invariant C14.parser.status-text: startBufIndex <= self.bufIndex && (endBufIndex == startBufIndex - 1 || (startBufIndex <= endBufIndex && endBufIndex < self.bufIndex && self.rbuf[endBufIndex] != 13 && self.rbuf[endBufIndex] != 10))
-//@   loop#6 invariant C14.parser.status-text: startBufIndex <= self.bufIndex && (endBufIndex == startBufIndex - 1 || (startBufIndex <= endBufIndex && endBufIndex < self.bufIndex && self.rbuf[endBufIndex] != 13 && self.rbuf[endBufIndex] != 10 && self.rbuf[endBufIndex] != 32))
+//@   loop#5 invariant C14.parser.status-text: startBufIndex <= self.bufIndex && (endBufIndex == i64(startBufIndex - 1) || (startBufIndex <= endBufIndex && endBufIndex < self.bufIndex && self.rbuf[endBufIndex] != 13 && self.rbuf[endBufIndex] != 10))
+//@   loop#6 invariant C14.parser.status-text: startBufIndex <= self.bufIndex && (endBufIndex == i64(startBufIndex - 1) || (startBufIndex <= endBufIndex && endBufIndex < self.bufIndex && self.rbuf[endBufIndex] != 13 && self.rbuf[endBufIndex] != 10 && self.rbuf[endBufIndex] != 32))
 //@   at call append assert C14.parser.empty-once: implies(self.stage == 4 && len(arg1) == 1 && len(arg1[0]) == 0 && self.cargLen == 0, self.rbuf[self.bufIndex] == 10)
 //@ func (*Command).Decode
 //@   requires self != nil && len(buf) >= 64
